@@ -109,7 +109,7 @@ def run(chk):
     c02.rule_who(chk)
     c13.rule_once(chk)
     c08.rule_fanout(chk)
-    c10.rule_line(chk, prefix="C01")
+    c10.rule_line(chk, prefix="C01", flush=False)
     c09.rule_never_early(chk, prefix="C01")
     c09.rule_add_dispatch(chk)
     c09.rule_upward(chk)
